@@ -14,7 +14,7 @@
 From Coq Require Import ZArith Bool List.
 From TF Require Import Word BFieldGen BField FieldOps FieldTheory PolyGen PolyCore PolySpec Ntt PolyDiv PolyInterp.
 From TF Require Import PolyInterpAlg PolyInterpBase PolyInterpProofs PolyCoreProofs PolyC07Wrap PolyDivProofs BFieldProofs BFieldOk PolyValueSem.
-From TF Require Import Dft NttDft PolyDeepenDiv PolyDeepenInterp PolyDeepenFmci PolyDeepenBary.
+From TF Require Import Dft NttDft PolyDeepenDiv PolyDeepenInterp PolyDeepenFmci PolyDeepenBary PolyDeepenColinear PolyDeepenCodec.
 Import ListNotations.
 Open Scope Z_scope.
 
@@ -257,3 +257,82 @@ Theorem C08_bfe_barycentric_evaluate : forall l cw x, (l <= 31)%nat -> Forall ca
                        bden r = peval fp_field ip (bden x).
 Proof. exact bfe_barycentric_evaluate. Qed.
 Print Assumptions C08_bfe_barycentric_evaluate.
+
+(* ---------------------------------------------------------------- 8. are_colinear_3 / are_colinear / get_colinear_y
+   on_line a c (x, y) : y = a x + c in the denoted field; pok p : both coordinates well formed *)
+Theorem C08_are_colinear_3 : forall {F K} (o : fops F) (fk : fieldK K) (ok : F -> Prop) (den : F -> K), field_ok o fk ok den ->
+  forall p0 p1 p2, pok ok p0 -> pok ok p1 -> pok ok p2 ->
+  (pint_are_colinear_3 o p0 p1 p2 = true <->
+   den (fst p0) <> den (fst p1) /\ den (fst p1) <> den (fst p2) /\ den (fst p2) <> den (fst p0) /\
+   exists a c, on_line fk den a c p0 /\ on_line fk den a c p1 /\ on_line fk den a c p2).
+Proof. exact (@are_colinear_3_spec). Qed.
+Print Assumptions C08_are_colinear_3.
+(* are_colinear never panics; true iff at least three points, pairwise distinct abscissae, all on one line *)
+Theorem C08_are_colinear : forall {F K} (o : fops F) (fk : fieldK K) (ok : F -> Prop) (den : F -> K), field_ok o fk ok den ->
+  forall points, Forall (pok ok) points ->
+  exists b, pint_are_colinear o points = Some b /\
+    (b = true <-> (3 <= length points)%nat /\ NoDup (map den (map fst points)) /\ exists a c, Forall (on_line fk den a c) points).
+Proof. exact (@are_colinear_spec). Qed.
+Print Assumptions C08_are_colinear.
+(* get_colinear_y: None exactly when the two abscissae coincide, otherwise THE ordinate at p2x of the line through p0 and p1 *)
+Theorem C08_get_colinear_y : forall {F K} (o : fops F) (fk : fieldK K) (ok : F -> Prop) (den : F -> K), field_ok o fk ok den ->
+  forall p0 p1 p2x, pok ok p0 -> pok ok p1 -> ok p2x ->
+  (den (fst p0) = den (fst p1) -> pint_get_colinear_y o p0 p1 p2x = None) /\
+  (den (fst p0) <> den (fst p1) ->
+   exists y, pint_get_colinear_y o p0 p1 p2x = Some y /\ ok y /\
+             (exists a c, on_line fk den a c p0 /\ on_line fk den a c p1 /\ on_line fk den a c (p2x, y)) /\
+             forall a c, on_line fk den a c p0 -> on_line fk den a c p1 -> den y = kadd fk (kmul fk a (den p2x)) c).
+Proof. exact (@get_colinear_y_spec). Qed.
+Print Assumptions C08_get_colinear_y.
+Example C08_ex_colinear :
+  pint_are_colinear bfe_ops (map (fun xy => (bfe_new (fst xy), bfe_new (snd xy))) [(0, 1); (1, 3); (2, 5); (5, 11)]) = Some true /\
+  pint_are_colinear bfe_ops (map (fun xy => (bfe_new (fst xy), bfe_new (snd xy))) [(0, 1); (1, 3); (2, 6)]) = Some false /\
+  option_map bfe_value (pint_get_colinear_y bfe_ops (bfe_new 0, bfe_new 1) (bfe_new 1, bfe_new 3) (bfe_new 7)) = Some 15.
+Proof. vm_compute. repeat split. Qed.
+
+(* ---------------------------------------------------------------- 9. helpers of model/PolyCore.v shared with property C17:
+   impl BFieldCodec for Polynomial round trip, impl Display degree logic *)
+(* decode (encode p) = the normalised coefficients of p (the same polynomial as a value), whenever the encoding is shorter than
+   the characteristic; `enc` / `dec` : the coefficient codec, w words per coefficient, dec (enc c) = Some c *)
+Theorem C08_poly_decode_encode : forall {F} (o : fops F) (w : Z) (enc : F -> list Z) (dec : list Z -> option F) (okF : F -> Prop),
+  1 <= w -> (forall c, okF c -> zlen (enc c) = w /\ dec (enc c) = Some c) ->
+  forall l, Forall okF l -> zlen (poly_normalize o l) * w + 2 <= Lucas.P ->
+  poly_decode o w dec (poly_encode o enc l) = Some (poly_normalize o l).
+Proof. exact (@poly_decode_encode). Qed.
+Print Assumptions C08_poly_decode_encode.
+Theorem C08_bfe_poly_decode_encode : forall l : list Z, zlen (poly_normalize bfe_ops l) + 2 <= Lucas.P ->
+  poly_decode bfe_ops 1 bfe_dec (poly_encode bfe_ops bfe_enc l) = Some (poly_normalize bfe_ops l).
+Proof. exact bfe_poly_decode_encode. Qed.
+Print Assumptions C08_bfe_poly_decode_encode.
+Theorem C08_xfe_poly_decode_encode : forall l : list XField.xfe, zlen (poly_normalize xfe_ops l) * 3 + 2 <= Lucas.P ->
+  poly_decode xfe_ops 3 xfe_dec (poly_encode xfe_ops xfe_enc l) = Some (poly_normalize xfe_ops l).
+Proof. exact xfe_poly_decode_encode. Qed.
+Print Assumptions C08_xfe_poly_decode_encode.
+(* Display: the i-th coefficient from the top is printed with the power degree - i, exactly when it is non-zero; the flags of a
+   term (c, p): " + " is printed before it unless p = degree, the coefficient is printed unless it is 1 and p > 0 *)
+Theorem C08_display_terms : forall {F} (o : fops F) l,
+  poly_display_terms o l =
+  flat_map (display_term o (poly_degree o l))
+           (combine (rev (poly_normalize o l)) (map (fun i => poly_degree o l - Z.of_nat i) (seq 0 (length (poly_normalize o l))))).
+Proof. exact (@display_terms_spec). Qed.
+Print Assumptions C08_display_terms.
+Example C08_display_term_unfold : forall {F} (o : fops F) deg (cp : F * Z),
+  display_term o deg cp = if fis_zero o (fst cp) then []
+                          else [(fst cp, snd cp, negb (snd cp =? deg), negb (feqb o (fst cp) (fone o)) || (snd cp =? 0))].
+Proof. exact (fun F o deg cp => eq_refl). Qed.
+(* the zero polynomial prints no term; otherwise the first term is the leading coefficient at the power `degree` without " + ",
+   all later terms have smaller powers and a " + " in front *)
+Theorem C08_display_zero : forall {F} (o : fops F) l, poly_degree o l < 0 -> poly_display_terms o l = [].
+Proof. exact (@display_terms_zero). Qed.
+Print Assumptions C08_display_zero.
+Theorem C08_display_head : forall {F} (o : fops F) l, 0 <= poly_degree o l ->
+  exists c rest, idx l (poly_degree o l) = Some c /\ fis_zero o c = false /\
+    poly_display_terms o l = (c, poly_degree o l, false, negb (feqb o c (fone o)) || (poly_degree o l =? 0)) :: rest /\
+    Forall (fun t => snd (fst t) = true /\ snd (fst (fst t)) < poly_degree o l) rest.
+Proof. exact (@display_terms_head). Qed.
+Print Assumptions C08_display_head.
+(* what is displayed depends only on the polynomial, not on stored leading zeros *)
+Theorem C08_display_value_semantics : forall {F K} (o : fops F) (fk : fieldK K) ok den, field_ok o fk ok den ->
+  forall a a', same fk ok den a a' -> poly_display_terms o a = poly_display_terms o a'.
+Proof. exact (@vs_display). Qed.
+Print Assumptions C08_display_value_semantics.
